@@ -158,11 +158,16 @@ impl Hist {
     pub fn handle_request(&mut self, ctx: &mut Ctx, msg: &[u8], desc: &str) {
         if self.dead { return; }
         let rb = self.ready_bytes();
+        // an AUTHENTIC message (this session, reader direction, the device's next counter, unmodified) whose plaintext is malformed
+        // must lead to a staged status-11/12 response whatever the outcome object says (decided from the delivery, not from the outcome)
+        let authentic_malformed = { let p: Vec<&str> = desc.split(':').collect();
+            p.len() == 6 && p[0] == "ct" && p[1] == "r" && p[2] == self.sim.id.to_string() && p[5] == "f" && (p[4] == "notcbor" || p[4] == "notreq")
+                && p[3].parse::<u64>().ok() == Some(sess::peek_device(&self.sim.dev).rdr_ctr as u64 + 1) && sess::peek_device(&self.sim.dev).rdr_ctr != u32::MAX };
         let o = match crate::guarded(std::panic::AssertUnwindSafe(|| self.sim.dev.handle_request(msg))) {
             Ok(o) => o, Err(e) => { self.died(ctx, format!("sess.handleRequest {desc}"), &e); return; } };
         let real = format!("{} {}", dev_outcome_class(&o), self.sim.summary());
         self.window_spec(ctx, true, desc, dev_outcome_class(&o).starts_with("accepted"));
-        let malformed = dev_outcome_class(&o) == "accepted:malformed";
+        let malformed = dev_outcome_class(&o) == "accepted:malformed" || authentic_malformed;
         self.last_req_outcome = Some(o);
         self.emit(ctx, format!("sess.handleRequest {desc}"), real);
         if malformed { let st = self.sim.dev_state_str(); self.spec13_line(ctx, "malformed", format!("spec.c13.malformed {st}")); }
@@ -189,6 +194,11 @@ impl Hist {
         };
         let real = self.sim.summary();
         self.emit(ctx, format!("sess.prepare {}", if docs.is_empty() { "-".into() } else { docs.join(",") }), real);
+        // Spec(real): whatever was pending, the device is now signing exactly the requested documents it holds (all of them are
+        // permitted here) - computed from the REQUEST, not read back from the state
+        { let mut want: Vec<String> = doc_types.iter().filter(|d| self.sim.holds(d)).map(|d| self.sim.doc_id(d)).collect(); want.sort(); want.dedup();
+          let st = self.sim.dev_state_str();
+          self.spec13_line(ctx, "prepare", format!("spec.c13.prepare {} {st}", if want.is_empty() { "-".into() } else { want.join(",") })); }
         self.spec13_notstuck(ctx);
         self.note_device_encryption(ctx, &rb);
     }
@@ -396,7 +406,7 @@ impl Hist {
             28..=33 => {
                 // malformed plaintext under the right key and counter (harness plays the reader)
                 let n = sess::peek_device(&self.sim.dev).rdr_ctr.wrapping_add(1);
-                let (pt, kind): (Vec<u8>, &str) = if ctx.rng.gen_bool(0.5) { (vec![0xff, 0x00, 0x13], "notcbor") } else { (vec![0xa1, 0x61, 0x78, 0x01], "notreq") };
+                let (pt, kind): (Vec<u8>, &str) = match ctx.rng.gen_range(0..5) { 0 | 1 => (vec![0xff, 0x00, 0x13], "notcbor"), 2 => (vec![], "notcbor"), _ => (vec![0xa1, 0x61, 0x78, 0x01], "notreq") };
                 let m = self.sim.craft_reader_msg(n, &pt);
                 let d = format!("ct:r:{}:{}:{}:f", self.sim.id, n, kind);
                 self.to_dev.push((m.clone(), d.clone()));
